@@ -790,7 +790,35 @@ def prop_pcfile(rec):
     return prop
 
 
+def core_pc_cases():
+    """Always run, whatever the seed: the combinations earlier seeded changes
+    needed (script-side kind under each configured mode, generated header,
+    forwarded two-word options, library names ending in d/l)."""
+    out = []
+    for mode in ('shared', 'static', 'dual'):
+        for kind in (None, 'dual'):
+            for auto in (False, True):
+                out.append({
+                    'mode': mode, 'auto_fill': auto, 'incdirs': ['include'],
+                    'options': ['-DSPACE=a b'], 'link_options': [],
+                    'private_static_dep': True, 'version': '1.0',
+                    'prefix': 'my pfx', 'libsub': 'sub' if auto else '',
+                    'libname': 'shell', 'depname': 'pool', 'dep_uopt': True,
+                    'genhdr': True, 'kind': kind,
+                    'deps': {'depa': {'version': '1.0', 'public': [],
+                                      'private': None}}})
+    return out
+
+
 def _run_b(rec, seed, budget, shard, nshards):
+    prop = prop_pcfile(rec)
+    for k, case in enumerate(core_pc_cases()):
+        if k % nshards != shard:
+            continue
+        try:
+            prop(case)
+        except Violation as v:
+            rec.fail('core/' + v.key, v.message, case)
     run_hypothesis(rec, pc_cases(), prop_pcfile(rec), budget, seed,
                    shrink=(os.environ.get('VERIF_TIER') == 'thorough'))
 
